@@ -266,6 +266,9 @@ fn main() -> std::io::Result<()> {
         })
         .as_bytes(),
     )?;
+    // stdout is line buffered: output that does not end in a newline (compressed
+    // style) would otherwise only be written at exit, where errors are ignored
+    buf_out.flush()?;
     Ok(())
 }
 
